@@ -10,3 +10,7 @@ package io
 //@ at call (Writer).Write: assert[C17.cap] l.N > 0 && len(arg0) <= l.N
 //@ ensures[C17.cap] old(l.N) >= 0 ==> 0 <= l.N && l.N <= old(l.N) && old(l.N) - l.N <= len(p)
 //@ modifies l.N
+
+//@ func LimitWriter
+//@ props C17
+//@ ensures[C17.cap] result != nil && fresh(result) && result.W == w && result.N == limit
